@@ -277,7 +277,7 @@ def table_logodds(model, rules):
 def check_composition(text, ts, depth):
     m = core.load_repo()
     from ctparse.nb_scorer import NaiveBayesScorer
-    default = m._DEFAULT_SCORER
+    default = core.default_scorer()
     if not isinstance(default, NaiveBayesScorer):
         raise core.HarnessError("shipped model not loaded (default scorer is {})".format(type(default).__name__))
     spy = _spy_class()(default)
@@ -288,7 +288,7 @@ def check_composition(text, ts, depth):
     for kind, txt, rules, covered, s in spy.calls:
         if txt != cleaned:
             raise core.HarnessError("cleaned text differs from reference normaliser: {!r} vs {!r}".format(txt, cleaned))
-        lo = table_logodds(default._model, rules)
+        lo = table_logodds(core.scorer_model(default), rules)
         exp = lo + (1000.0 if kind == "final" else 1.0) * math.log(covered / len(cleaned))
         seen.append((kind, rules, covered))
         if not math.isfinite(s) or abs(s - exp) > 1e-6 * max(1.0, abs(exp)):
